@@ -101,6 +101,8 @@ def rvq_cases(ctx, rng, scale, cases, meta, failures, dist):
             for layer in (rvq.layers[:1] if shared else rvq.layers):
                 vqrec.set_codebook_grid(layer, rng)
         b, nn_ = rng.choice([(1, 1), (2, 3), (2, 4)])
+        if implicit:
+            b, nn_ = 2, 3 + ci % 2          # per-token (implicit) codebooks: several samples AND several positions, always (a batch / sequence axis mix-up needs both)
         x = vqrec.grid(rng, (b, nn_, kw['dim'])) if exact else torch.randn(b, nn_, kw['dim'])
         kwargs = dict(return_all_codes=True)
         m = None
